@@ -526,7 +526,8 @@ pub fn parse_ipv4(b: &[u8]) -> Option<PIp<'_>> {
         ttl: b[8],
         header: &b[..std::cmp::min(start, b.len())],
         payload,
-        consistent: ver == 4 && ihl >= 5 && tl == b.len() && start <= b.len(),
+        // bytes after the datagram (tl < b.len(): link-layer padding / trailer) are legitimate
+        consistent: ver == 4 && ihl >= 5 && tl <= b.len() && start <= tl,
         flags_frag: u16::from_be_bytes([b[6], b[7]]),
     })
 }
@@ -549,7 +550,7 @@ pub fn parse_ipv6(b: &[u8]) -> Option<PIp<'_>> {
         ttl: b[7],
         header: &b[..40],
         payload,
-        consistent: ver == 6 && 40 + pl == b.len(),
+        consistent: ver == 6 && 40 + pl <= b.len(),
         flags_frag: 0,
     })
 }
